@@ -132,6 +132,32 @@ func rateTouched(ms []mutation) bool {
 	return false
 }
 
+// timeTouched: a duration was set to one nanosecond.  Operations bounded by it
+// time out by design, so answers are not required (crashes still count).
+func timeTouched(ms []mutation) bool {
+	for _, m := range ms {
+		if m.Kind == "duration" && m.Value.Class == "1" {
+			return true
+		}
+	}
+	return false
+}
+
+// connTouched: the stream-connection limit was set to 0 or 1.  The
+// documentation states that listening sockets count as active connections and
+// that the thresholds should exceed the number of bound addresses, so stream
+// transports may legitimately stall.
+func connTouched(ms []mutation) bool {
+	for _, m := range ms {
+		g := m.Path.generic()
+		if (g == "ratelimit.connection_limit.stop" || g == "ratelimit.connection_limit.resume") &&
+			(m.Value.Class == "0" || m.Value.Class == "1") {
+			return true
+		}
+	}
+	return false
+}
+
 // runOnce executes the configuration obtained from the base by ms.
 func (h *harness) runOnce(ms []mutation, tag string) (obs *observation) {
 	obs = &observation{}
@@ -262,7 +288,12 @@ func (h *harness) attempt(ms []mutation, tag string) (obs *observation, collided
 		sp.DNSCheckOK = true
 	}
 	tTraffic := time.Now()
-	obs.Groups, obs.Queries = runTraffic(liveServers(tree, loc), sp)
+	sp.TimeTouched = timeTouched(ms)
+	sp.ConnTouched = connTouched(ms)
+	// hopeless: the process died or printed a panic; waiting for more answers
+	// cannot change the verdict.
+	hopeless := func() bool { return exited() || reBadLine.MatchString(readOut()) }
+	obs.Groups, obs.Queries = runTraffic(liveServers(tree, loc), sp, hopeless)
 	obs.TrafficMS = time.Since(tTraffic).Milliseconds()
 	tStop := time.Now()
 	defer func() { obs.StopMS = time.Since(tStop).Milliseconds() }()
@@ -290,7 +321,7 @@ func (h *harness) attempt(ms []mutation, tag string) (obs *observation, collided
 	if reCollision.MatchString(obs.Output) {
 		return obs, true
 	}
-	h.classifyAccepted(obs, diedDuringTraffic, termTimedOut)
+	h.classifyAccepted(obs, diedDuringTraffic, termTimedOut, sp.TimeTouched)
 	return obs, false
 }
 
@@ -396,31 +427,33 @@ func (h *harness) classifyEarlyExit(obs *observation, ms []mutation) {
 			obs.Verdict, obs.NamedBy = "rejected", how
 			return
 		}
-		if isTimeoutEffect(msg, ms) {
-			obs.Verdict, obs.Class = "rejected", "timeout-effect"
-			obs.NamedBy = "start-up operation timed out under a tiny positive timeout"
+		if isLimitEffect(msg, ms) {
+			obs.Verdict, obs.Class = "rejected", "limit-effect"
+			obs.NamedBy = "a start-up operation hit a tiny positive timeout / size limit and reported it"
 			return
 		}
 		obs.Verdict, obs.Class, obs.What = "violation", "rejected-unnamed", "configuration rejected, but the message does not name the offending property"
 	}
 }
 
-// isTimeoutEffect: a positive but tiny duration (1ns) made a start-up I/O
-// operation time out; the process reported that error and exited.  This is an
-// environmental failure report, not a validation defect.
-func isTimeoutEffect(msg string, ms []mutation) bool {
-	if !strings.Contains(msg, "deadline exceeded") && !strings.Contains(msg, "timeout") && !strings.Contains(msg, "timed out") {
-		return false
-	}
+// isLimitEffect: a positive but tiny limit (1ns, 1B) made a start-up I/O
+// operation fail; the process reported that error and exited.  The limit did
+// what it says; this is not a validation defect.
+func isLimitEffect(msg string, ms []mutation) bool {
+	timeout := strings.Contains(msg, "deadline exceeded") || strings.Contains(msg, "timeout") || strings.Contains(msg, "timed out")
+	size := strings.Contains(msg, "cannot read more than") || strings.Contains(msg, "too large") || strings.Contains(msg, "exceeds")
 	for _, m := range ms {
-		if m.Kind == "duration" && m.Value.Class == "1" {
+		if m.Value.Class != "1" {
+			continue
+		}
+		if (m.Kind == "duration" && timeout) || (m.Kind == "size" && size) {
 			return true
 		}
 	}
 	return false
 }
 
-func (h *harness) classifyAccepted(obs *observation, died, termTimedOut bool) {
+func (h *harness) classifyAccepted(obs *observation, died, termTimedOut, timeTouched bool) {
 	for _, l := range strings.Split(obs.Output, "\n") {
 		if reBadLine.MatchString(l) && len(obs.BadLines) < 8 {
 			obs.BadLines = append(obs.BadLines, tail(l, 400))
@@ -450,6 +483,10 @@ func (h *harness) classifyAccepted(obs *observation, died, termTimedOut bool) {
 	case termTimedOut:
 		obs.Verdict, obs.Class = "ambiguous", "shutdown-watchdog"
 		obs.What = "no exit after SIGTERM within the watchdog"
+	case obs.Signal == "" && obs.Exit != 0 && timeTouched:
+		// A service whose start or stop was bounded by the 1ns duration
+		// reported its failure through the exit status.
+		obs.Verdict, obs.Class = "accepted", "limit-effect-exit-status"
 	case obs.Exit != 0 || obs.Signal != "":
 		obs.Verdict, obs.Class = "violation", "unclean-exit"
 		obs.What = fmt.Sprintf("exit status %d %s after SIGTERM", obs.Exit, obs.Signal)
@@ -467,8 +504,18 @@ type caseSpec struct {
 }
 
 type caseResult struct {
-	Spec caseSpec
-	Obs  *observation
+	Spec   caseSpec
+	Obs    *observation
+	Second *observation // confirmation run, only after a violation
+}
+
+// runCase executes one case and, if it shows a violation, a second time.
+func (h *harness) runCase(c caseSpec) caseResult {
+	cr := caseResult{Spec: c, Obs: h.runOnce(c.Muts, c.Stream)}
+	if cr.Obs.Verdict == "violation" {
+		cr.Second = h.runOnce(c.Muts, c.Stream+"-confirm")
+	}
+	return cr
 }
 
 func witness(c caseSpec, first, second *observation) map[string]interface{} {
@@ -505,7 +552,7 @@ func (h *harness) runAll(cases []caseSpec, par int) []caseResult {
 		go func() {
 			defer wg.Done()
 			for i := range ch {
-				res[i] = caseResult{Spec: cases[i], Obs: h.runOnce(cases[i].Muts, cases[i].Stream)}
+				res[i] = h.runCase(cases[i])
 			}
 		}()
 	}
@@ -542,6 +589,9 @@ func (h *harness) account(cr caseResult, singles map[string]string) (class strin
 	case "accepted":
 		r.Bucket("accepted", 1)
 		r.Bucket("section:"+sec+":accepted", 1)
+		if obs.Class != "" {
+			r.Bucket("accepted:"+obs.Class, 1)
+		}
 		r.Eval(ck, obs.Answered > 0)
 	case "rejected":
 		r.Bucket("rejected", 1)
@@ -549,8 +599,8 @@ func (h *harness) account(cr caseResult, singles map[string]string) (class strin
 		if strings.HasPrefix(obs.NamedBy, "line:") {
 			r.Bucket("rejected_by_parser_with_line", 1)
 		}
-		if obs.Class == "timeout-effect" {
-			r.Bucket("rejected_timeout_effect", 1)
+		if obs.Class == "limit-effect" {
+			r.Bucket("rejected_limit_effect", 1)
 		}
 		r.Eval(ck, true)
 	case "ambiguous":
@@ -559,8 +609,8 @@ func (h *harness) account(cr caseResult, singles map[string]string) (class strin
 		r.Eval(ck, false)
 		r.Sample(map[string]interface{}{"ambiguous": ck, "class": obs.Class, "what": obs.What, "output_tail": tail(obs.Output, 600)})
 	case "violation":
-		// Confirm on a second, separate execution before reporting.
-		second := h.runOnce(c.Muts, c.Stream+"-confirm")
+		// Confirmed on a second, separate execution before reporting.
+		second := cr.Second
 		r.Bucket("queries_sent", int64(second.Queries))
 		r.Bucket("queries_answered", int64(second.Answered))
 		if second.Verdict != "violation" || second.Class != obs.Class {
@@ -627,9 +677,10 @@ func TestCheck(t *testing.T) {
 		"plus seeded random pairs (and triples in the thorough tier) within one section; class key = the list of (yaml path = value class); " +
 		"non-trivial = the child reached a decisive observation: rejected with its message examined, or accepted and at least one query answered")
 	r.Assume("a YAML type error that gives the line number of the mutated property counts as naming it")
-	r.Assume("a start-up I/O operation that times out under a positive 1ns timeout and is reported as an error is an environmental failure, not a validation defect")
+	r.Assume("a duration of 1ns / a size of 1B is a legal positive value: a start-up operation that reports hitting that limit, and queries that time out under a 1ns duration, are the configured behaviour, not violations (panics and crashes still are)")
 	r.Assume("queries of the rate-limited loopback clients are required only while the configured limits allow them; when a rate-limit parameter is mutated only the first query of a fresh client is required")
-	r.Assume("an unanswered query is retried twice alone (3 s + 2 x 6 s) and every violation is confirmed by a second, separate execution of the same file")
+	r.Assume("connection_limit.stop/resume of 0 or 1 is below the documented minimum (more than the number of bound addresses): stream transports are then not required to answer")
+	r.Assume("an unanswered query is retried alone (3 s, then 8 s) and every violation is confirmed by a second, separate execution of the same file")
 
 	scratch := os.Getenv("VERIF_SCRATCH")
 	if scratch == "" {
@@ -737,7 +788,7 @@ func TestCheck(t *testing.T) {
 			r.Inconclusive(perr.Error())
 			return
 		}
-		cr := caseResult{Spec: caseSpec{Stream: "only", Muts: ms}, Obs: h.runOnce(ms, "only")}
+		cr := h.runCase(caseSpec{Stream: "only", Muts: ms})
 		b, _ := json.MarshalIndent(cr.Obs, "", " ")
 		fmt.Printf("=== %s ===\n%s\n=== output ===\n%s\n", caseKey(ms), b, tail(cr.Obs.Output, 6000))
 		h.account(cr, map[string]string{})
@@ -810,6 +861,10 @@ func TestCheck(t *testing.T) {
 			combos = append(combos, caseSpec{Stream: stream, Idx: i, Muts: ms})
 		}
 	}
+	for i, ms := range constraintCases(fields) {
+		combos = append(combos, caseSpec{Stream: "constraint", Idx: i, Muts: ms})
+	}
+	r.Bucket("cases_constraint", int64(len(combos)))
 	gen("pair", r.N(150, 900), 2)
 	gen("triple", r.N(0, 450), 3)
 	r.Bucket("cases_combination", int64(len(combos)))
